@@ -3,7 +3,7 @@
 import subprocess,os,re
 root=os.path.dirname(os.path.dirname(os.path.abspath(__file__)))
 p=os.path.join(root,'DESIGN.md'); s=open(p).read()
-for k in ('fixed','open','seeded'):
+for k in ('fixed','open','seeded','strengthened'):
     t=subprocess.check_output(['python3',os.path.join(root,'tools','design_tables.py'),k],text=True).strip()
     s=re.sub(r'<!-- BEGIN:%s -->.*?<!-- END:%s -->'%(k,k),lambda m:'<!-- BEGIN:%s -->\n%s\n<!-- END:%s -->'%(k,t,k),s,flags=re.S)
 open(p,'w').write(s)
